@@ -18,9 +18,9 @@ inverted (v -> 1/v): visits every branch that depends on which of two sizes is l
 length < radius, side orderings).
 Extreme ratio: for every pair of same-unit shape parameters one is pushed to 1e-2 and 1e-3 of the other, in both
 directions (thin walls, flat discs, long needles, thin shells), and every dimensionless volume parameter (itself a
-ratio of sizes) to 1e-2, 1e-3 and the inverses; quick: both directions at one seed-rotated ratio per pair, on the
-activated base; thorough: everything on both bases.  These sets use q*size in {1, 5, 20} and q*L in {1, 3, 10} for
-BOTH lengths of the pair.
+ratio of sizes) to 1e-2, 1e-3 and the inverses; quick: on the activated base; thorough: on both bases.  These sets
+use q*size in {0.1, 0.5, 2, 10} (the Guinier region included: everything converges there and a wrong Jacobian or
+normalisation of a special-cased regime shows at full size) and q*L in {1, 10} for BOTH lengths of the pair.
 q menu: q*size as above, plus q = {0.7, 1, 1.4, 2, 3} x 2 pi / L for every length L that is not a volume parameter
 (the lattice spacing dnn of the paracrystals sets its own q scale).
 One case = one (model, base, parameter set); the q values are looped inside.
@@ -165,8 +165,10 @@ def inversions(info, vals, quick):
 
 
 EXTREME = (1e-2, 1e-3)
-QPAIR = [1.0, 3.0, 10.0]          # q*L for BOTH lengths of an extreme pair
-QSIZE_EXTREME = [1.0, 5.0, 20.0]  # reduced q*size menu on the extreme sets
+QPAIR = [1.0, 10.0]               # q*L for BOTH lengths of an extreme pair
+# q*size menu on the extreme sets: includes the Guinier region (0.1, 0.5), where both quadratures converge trivially
+# and a wrong normalisation / Jacobian of a special-cased regime (needle, thin wall) shows at full size
+QSIZE_EXTREME = [0.1, 0.5, 2.0, 10.0]
 
 
 def extremes(info, vals, ctx):
@@ -174,8 +176,8 @@ def extremes(info, vals, ctx):
     extreme ratio: for every pair of shape parameters with the same unit, one of the two pushed to 1e-2 and 1e-3 of the
     other (which keeps its base value), in both directions - thin walls, flat discs, long needles, thin shells; and every
     dimensionless volume parameter (itself a ratio of sizes: x_core, axis_ratio, b2a_ratio ...) set to 1e-2, 1e-3 and
-    their inverses.  Quick: both directions at ONE of the two ratios per pair (rotated by seed + pair index);
-    thorough: all.  Returns a list of ({name: value}, [names whose lengths tie the q menu]).
+    their inverses.  Both ratios and both directions in both tiers (quick: on the activated base only; a ratio of
+    exactly 1e-2 can sit ON a regime threshold such as length > 100*radius, so 1e-3 is needed as well).  Returns a list of ({name: value}, [names whose lengths tie the q menu]).
     """
     out = []
     pars = [p for p in shape_pars(info) if not is_count(p) and vals[p.name] > 0]
@@ -184,18 +186,16 @@ def extremes(info, vals, ctx):
     for p1, p2 in itertools.combinations(pars, 2):
         if unit_of(p1) != unit_of(p2):
             continue
-        ratios = [EXTREME[(ctx.seed + k) % len(EXTREME)]] if ctx.quick else EXTREME
         k += 1
-        for r in ratios:
+        for r in EXTREME:
             for small, large in ((p1, p2), (p2, p1)):
                 v = r * float(vals[large.name])
                 if inside(small, v):
                     out.append(({small.name: v}, [small.name, large.name] if unit_of(p1) else []))
     for p in pars:
         if unit_of(p) == "" and p.type == "volume":
-            ratios = [EXTREME[(ctx.seed + k) % len(EXTREME)]] if ctx.quick else EXTREME
             k += 1
-            for r in ratios:
+            for r in EXTREME:
                 for v in (r, 1.0 / r):
                     if inside(p, v):
                         out.append(({p.name: v}, []))
